@@ -134,7 +134,8 @@ class VirtualFile(object):
         Lists the files contained within the virtual file.
         """
         if filenames:
-            return [coco_file for coco_file in self.coco_file_list if coco_file.name in filenames]
+            wanted = [filename.upper() for filename in filenames]
+            return [coco_file for coco_file in self.coco_file_list if coco_file.name.upper() in wanted]
         return self.coco_file_list
 
 
